@@ -1,7 +1,7 @@
 (* C26 -- property theorems (statements only) over the definitions regenerated from /repo *)
 From Coq Require Import Reals List.
 From Coquelicot Require Import Coquelicot.
-From C26 Require Import C26Spec C26_gen C26Proofs C26ProofsJ C26ProofsB C26ProofsJOdd.
+From C26 Require Import C26Spec C26_gen C26Proofs C26ProofsJ C26ProofsJ2 C26ProofsB C26ProofsB2 C26ProofsB3 C26ProofsJOdd.
 Import ListNotations.
 Local Open Scope R_scope.
 
